@@ -34,7 +34,7 @@ ABNORMAL = ["fail", "torn", "kill_before", "kill_after", "kill_mid", "sig_before
 
 
 def n_cases(tier):
-    return 420 if tier == "quick" else 900
+    return 2400 if tier == "quick" else 6000
 
 
 # ---------------------------------------------------------------------------------------------
